@@ -64,6 +64,7 @@ class Stats:
         self.trace_digest = hashlib.sha256()
         self.states = set()
         self.per_seed = []         # (i, digest) -- determinism self-test
+        self.interleavings = set()
 
     def merge(self, o: "Stats"):
         self.evaluations += o.evaluations
@@ -71,6 +72,7 @@ class Stats:
         self.shapes |= o.shapes
         self.nontrivial_shapes |= o.nontrivial_shapes
         self.states |= o.states
+        self.interleavings |= o.interleavings
         for k, v in o.faults.items():
             self.faults[k] = self.faults.get(k, 0) + v
         for k, v in o.probes.items():
@@ -95,6 +97,8 @@ def add_result(st: Stats, res: dict, seed: int, i: int, scn: dict, keep_viol: in
             st.nontrivial_shapes.add(h)
     for s in res.get("states", ()):
         st.states.add(s)
+    if res.get("interleaving") is not None:
+        st.interleavings.add(int.from_bytes(hashlib.blake2b(canon(res["interleaving"]).encode(), digest_size=8).digest(), "big"))
     for k, v in (res.get("faults") or {}).items():
         st.faults[k] = st.faults.get(k, 0) + v
     for k, v in (res.get("probes") or {}).items():
@@ -179,7 +183,7 @@ def run_parallel(prop_name: str, master: int, total: int, tier: str, jobs: int, 
 
 # ---------------------------------------------------------------------------
 def load_known(path=None):
-    path = path or os.path.join(VERIF, "known_findings.json")
+    path = path or os.environ.get("VERIF_KNOWN_FINDINGS") or os.path.join(VERIF, "known_findings.json")
     if not os.path.exists(path):
         return []
     with open(path) as f:
@@ -226,6 +230,10 @@ def write_evidence(prop, tier, master, st: Stats, level, extra_cov=None, assumpt
     }
     if st.states:
         cov["states"] = len(st.states)
+        cov["states_measure"] = getattr(prop, "STATES_MEASURE", "distinct abstract states / transitions reached (see rule)")
+    if st.interleavings:
+        cov["distinct_interleavings"] = len(st.interleavings)
+        cov["interleavings_measure"] = getattr(prop, "INTERLEAVING_MEASURE", "distinct (program, schedule) pairs")
     if extra_cov:
         cov.update(extra_cov)
     ev = {
